@@ -32,14 +32,12 @@ fn strategy(tier: Tier) -> BoxedStrategy<Hist> {
         ),
         // trailing reopen cycles with no write in between
         1usize..=4,
-        // a third of the cases also run merges (with every non-empty file eligible: partial
-        // selection is C05's subject), inserted at generated positions
+        // a third of the cases also run merges (under the case's arbitrary thresholds), inserted
+        // at generated positions
         prop_oneof![2 => Just(Vec::<u16>::new()), 1 => proptest::collection::vec(any::<u16>(), 1..4)],
     )
         .prop_map(|(cfg, keys, mut ops, tail, merges)| {
-            let mut cfg = cfg;
             if !merges.is_empty() {
-                cfg = cfg.all_eligible();
                 for m in merges {
                     let at = (m as usize * (ops.len() + 1)) >> 16;
                     ops.insert(at, Op::Merge);
@@ -76,7 +74,7 @@ pub fn prop() -> Prop<Hist> {
     Prop {
         id: "C02",
         level: "exploration",
-        rule: "Cases are histories over set/get/del/reopen (a third of them also contain merges with every non-empty file eligible) (deletes of present and absent keys, re-sets after delete, many files because max_file_size is drawn small) ending in 1-4 consecutive reopen cycles, run against the real store and a BTreeMap model; after every reopen all pool keys are read and the reopened index key set is compared with the model. Non-trivial: a reopen that follows a delete of a present key or an overwrite whose two versions sit in different data files; distinct = distinct hash of the whole case.",
+        rule: "Cases are histories over set/get/del/reopen (a third of them also contain merges, under arbitrary thresholds) (deletes of present and absent keys, re-sets after delete, many files because max_file_size is drawn small) ending in 1-4 consecutive reopen cycles, run against the real store and a BTreeMap model; after every reopen all pool keys are read and the reopened index key set is compared with the model. Non-trivial: a reopen that follows a delete of a present key or an overwrite whose two versions sit in different data files; distinct = distinct hash of the whole case.",
         assumptions: &["clean close (drop of the store object) before every reopen; crashes are C03's subject"],
         needs_shim: false,
         budget: |t| t.pick(16000, 400000),
